@@ -915,6 +915,9 @@ func (g *G) crossFunctionBlockAddresses() {
 			continue
 		}
 		blk := user.Blocks[g.intn("crossbablk", len(user.Blocks))]
+		if blk.Term != nil && blk.Term.Op == "catchswitch" {
+			continue // a catchswitch is the only non-phi instruction of its block
+		}
 		ba := &am.Const{K: am.CBlockAddr, T: am.P(am.I8), Ref: t.Func, Block: t}
 		slot := &am.Const{K: am.CUndef, T: am.P(am.P(am.I8))}
 		blk.Insts = append(blk.Insts, &am.Inst{Op: "store", Args: []*am.Value{{K: am.VConst, C: ba}, {K: am.VConst, C: slot}}})
@@ -925,8 +928,9 @@ func (g *G) crossFunctionBlockAddresses() {
 // dsoLocalEquivalents rewrites some function addresses used inside function bodies to
 // `dso_local_equivalent @f`. llvm-as-14 crashes on a forward reference to the function (LLVM's defect,
 // fixed in later releases), so only functions that come earlier in the text (and in the construction
-// order, and the function itself) are eligible; global initialisers never are, because the library
-// prints globals before functions.
+// order) are eligible, not the function itself (next to vector-bitcast constant expressions of the same
+// function llvm-as-14 then writes bitcode that llvm-dis-14 cannot read: "Invalid record"); global
+// initialisers never are, because the library prints globals before functions.
 func (g *G) dsoLocalEquivalents() {
 	if g.off("fnaddr-wrappers") {
 		return
@@ -954,7 +958,7 @@ func (g *G) dsoLocalEquivalents() {
 				return
 			}
 			if c.K == am.CGlobal {
-				if f, ok := c.Ref.(*am.Fun); ok && pos[f] <= pos[user] && textPos[f] <= textPos[user] && g.chance("dsoeq", 1, 3) {
+				if f, ok := c.Ref.(*am.Fun); ok && pos[f] < pos[user] && textPos[f] < textPos[user] && g.chance("dsoeq", 1, 3) {
 					c.K = am.CDSOLocalEq
 					g.feat("const/dso_local_equivalent")
 				}
